@@ -257,6 +257,9 @@ impl Split {
       }
     }
 
+    // a runestone carries its edicts sorted by rune id
+    edicts.sort_by_key(|edict| edict.id);
+
     let runestone = Runestone {
       edicts,
       ..default()
